@@ -82,6 +82,19 @@ def judge(case):
     pf = U.pyvaporation.get_partial_pressures(case["T"], mix, comp, case["model"])
     pf = (float(pf[0]), float(pf[1]))
     ystar = out["y_star"]
+    if ystar is None:
+        # no driving-force evaluation went through the observed method (an implementation may inline it or take a shortcut):
+        # fall back to the seam-free form - solve the law for y from the returned fluxes
+        if mode == "vac" or (mode[0] == "p" and mode[1] == 0):
+            ok_v = all(core.close(J[i], P[i] * pf[i], core.ULP) for i in (0, 1))
+            vv = [] if ok_v else [core.viol("C02/vacuum_law", "fluxes %r differ from permeance x feed partial pressure %r" % (J, (P[0] * pf[0], P[1] * pf[1])))]
+            return core.result("judged-unobserved", digest=core.digest_of([core.fhex(J[0]), core.fhex(J[1])]), viol=vv)
+        y_law = solve_law_for_y(mix, case, kw, mode, pf, J, P)
+        yJ0 = J[0] / (J[0] + J[1])
+        if y_law is None or not abs(y_law - yJ0) < max(case["precision"], 1e-9) * 1.5:
+            return core.result("judged-unobserved", viol=[core.viol("C02/driving_force/unobserved", "returned fluxes %r (no driving-force evaluation was observable) do not satisfy permeance x (feed - permeate "
+                                                                  "partial pressure) at any permeate composition within the precision of their own composition %r (closest: %r)" % (J, yJ0, y_law))])
+        return core.result("judged-unobserved", digest=core.digest_of([core.fhex(J[0]), core.fhex(J[1])]))
     # the composition of fluxes is a MASS fraction; whatever basis the implementation labels its permeate estimate
     # with is honoured (exact conversion), so a mass fraction merely *labelled* molar shows up as a mismatch
     ys = U.mass_fraction(ystar, mix)
@@ -182,7 +195,7 @@ def space(tier, seed):
     alph = {
         "mixture": ["H2O_EtOH", "MeOH_DMC", "S2", "S5"] if q else list(U.ALL_MIXTURES),
         "model": ["NRTL", "UNIQUAC"],
-        "mode": ["vac", ("T", 120.0), ("T", -60.0), ("T", -20.0), ("p", 0.0), ("p", 0.5), ("p", 5.0)] +
+        "mode": ["vac", ("T", 120.0), ("T", -60.0), ("T", -20.0), ("p", 0.0), ("p", 0.004), ("p", 0.5), ("p", 5.0)] +
                 ([] if q else [("T", -5.0), ("T", 0.0), ("p", 100.0)]),
         "P": [(1e-2, 1e-4), (1e-3, 1e-3), (1e-6, 1.0), (1.0, 1e-6)] if q else
              [(a, b) for a in (1e-6, 1e-4, 1e-2, 1.0) for b in (1e-6, 1e-4, 1e-2, 1.0)],
